@@ -2,7 +2,7 @@
    Print Assumptions.  hwf = every reference stored in a heap cell points to an allocated cell of the right kind;
    swf = the stream record points to an indexer and a thermal condition; both are invariants of every reachable
    state (copy_lemma, mut_local, link_lemma, unlink_lemma, flow_proxy_lemma re-establish them). *)
-From V Require Import Common.NumFacts C13.Model C13.ModelViews C13.Proofs C13.Hist C13.CopyLike C13.Reduce C13.ProofsDeep C13.ProofsViews.
+From V Require Import Common.NumFacts C13.Model C13.ModelViews C13.Proofs C13.Hist C13.CopyLike C13.Reduce C13.ProofsDeep C13.ProofsViews C13.Gen_pickle C13.ModelPickle C13.ProofsPickle.
 Local Open Scope nat_scope.
 
 (* a copy has the same flows, phase(s), T and P; the original is unchanged; nothing is shared *)
@@ -559,3 +559,80 @@ Proof.
     rewrite (A _ _ _ _ H1), (A _ _ _ _ H2). reflexivity.
 Qed.
 Print Assumptions C13_view_bound_condition_necessary.
+
+(* ---- pickles of property packages: the generic pickling of slotted classes (utils/pickle.py) run on the class tables that
+   tr/C13_pickle.py regenerates from _thermo.py on every run.  pview = class, state of EVERY slot of the class (unset / None /
+   value) and the same for every object a slot refers to. *)
+
+(* a Thermo as its constructor leaves it (no ideal package cached yet), for all constructor values and all heaps: the round
+   trip succeeds, builds one new object, leaves the heap below it as it was, and the new object has the same view *)
+Theorem C13_pickle_thermo_roundtrip : forall h l a b c d e,
+  nth_error h l = Some (thermo_obj a b c d e PNone) ->
+  exists h2 l2, ppickle h l = Ok (h2, l2) /\ pview h2 l2 = pview h l /\ length h <= l2 /\ firstn (length h) h2 = h.
+Proof.
+  intros h l a b c d e H. eexists. eexists. split; [apply (pickle_thermo_plain h l a b c d e H)|].
+  split; [apply pview_plain; exact H|]. split; [apply le_n|]. rewrite firstn_app, Nat.sub_diag, firstn_all. cbn [firstn]. apply app_nil_r.
+Qed.
+Print Assumptions C13_pickle_thermo_roundtrip.
+
+(* a Thermo holding its cached ideal package: same, and the cached package is rebuilt too (the new package refers to a NEW
+   ideal package with the same view, never to the original's) *)
+Theorem C13_pickle_thermo_cached_roundtrip : forall h l r a b c d e a' b',
+  nth_error h l = Some (thermo_obj a b c d e (PRef r)) -> nth_error h r = Some (ideal_obj a' b') -> l <> r ->
+  exists h2 l2, ppickle h l = Ok (h2, l2) /\ pview h2 l2 = pview h l /\ length h <= l2 /\ firstn (length h) h2 = h /\
+    exists r2, (exists o, nth_error h2 l2 = Some o /\ fget (p_fields o) ideal_slot_name = Some (PRef r2)) /\ length h <= r2.
+Proof.
+  intros h l r a b c d e a' b' H R N. eexists. eexists. split; [apply (pickle_thermo_cached h l r a b c d e a' b' H R N)|].
+  split; [apply (pview_cached h l r a b c d e a' b' H R)|]. split; [lia|]. split.
+  - rewrite firstn_app, Nat.sub_diag, firstn_all. cbn [firstn]. apply app_nil_r.
+  - exists (length h). split; [|lia]. eexists. split.
+    + replace (S (length h)) with (length h + 1) by lia. rewrite nth_app_new. reflexivity.
+    + reflexivity.
+Qed.
+Print Assumptions C13_pickle_thermo_cached_roundtrip.
+
+Theorem C13_pickle_ideal_roundtrip : forall h l a b,
+  nth_error h l = Some (ideal_obj a b) ->
+  exists h2 l2, ppickle h l = Ok (h2, l2) /\ pview h2 l2 = pview h l /\ length h <= l2 /\ firstn (length h) h2 = h.
+Proof.
+  intros h l a b H. eexists. eexists. split; [apply (pickle_ideal h l a b H)|].
+  split; [apply pview_ideal; exact H|]. split; [apply le_n|]. rewrite firstn_app, Nat.sub_diag, firstn_all. cbn [firstn]. apply app_nil_r.
+Qed.
+Print Assumptions C13_pickle_ideal_roundtrip.
+
+(* what the round trip is FOR: the ideal package of an unpickled package can be asked for, exactly as the original's: it is
+   built over the unpickled package's own chemicals and mixture and cached *)
+Theorem C13_pickle_then_ideal : forall h l a b c d e,
+  nth_error h l = Some (thermo_obj a b c d e PNone) ->
+  exists h2 l2 h3 i3, ppickle h l = Ok (h2, l2) /\ p_ideal h2 l2 = Ok (h3, i3) /\
+    nth_error h3 i3 = Some (ideal_obj a b) /\ nth_error h3 l2 = Some (thermo_obj a b c d e (PRef i3)) /\
+    p_ideal h3 l2 = Ok (h3, i3).
+Proof.
+  intros h l a b c d e H.
+  assert (N : nth_error (h ++ [thermo_obj a b c d e PNone]) (length h) = Some (thermo_obj a b c d e PNone))
+    by (rewrite nth_app_new0; reflexivity).
+  eexists. eexists. eexists. eexists. split; [apply (pickle_thermo_plain h l a b c d e H)|].
+  split; [apply (p_ideal_plain _ _ a b c d e N)|].
+  assert (W : forall (x : pobj), pwr (h ++ [thermo_obj a b c d e PNone]) (length h) x = h ++ [x]).
+  { intros x. clear H N. induction h as [|y h IH]; cbn; [reflexivity|]. f_equal. exact IH. }
+  rewrite W. rewrite app_length. cbn [length]. replace (length h + 1) with (S (length h)) by lia.
+  rewrite <- app_assoc. cbn [app].
+  split; [replace (S (length h)) with (length h + 1) by lia; rewrite nth_app_new; reflexivity|].
+  split; [rewrite nth_app_new0; reflexivity|].
+  apply (p_ideal_cached _ _ _ a b c d e). rewrite nth_app_new0. reflexivity.
+Qed.
+Print Assumptions C13_pickle_then_ideal.
+
+(* non-vacuity: the shapes of the hypotheses are what the constructor and ideal() produce *)
+Example C13_pickle_shapes_reached :
+  fst (fst (prun ([], []) [PNew 0 10 20 21 22])) = [thermo_obj 0 10 20 21 22 PNone] /\
+  fst (fst (prun ([], []) [PNew 0 10 20 21 22; PIdeal 0])) = [thermo_obj 0 10 20 21 22 (PRef 1); ideal_obj 0 10].
+Proof. split; reflexivity. Qed.
+
+(* the statement over ALL histories (every object of every store reachable by PNew / PIdeal / PPickle / PReduce / PEnter
+   round-trips with an equal view) is kept visible; proved above for the three shapes objects have (constructor result,
+   package with cached ideal package, ideal package); that every reachable object has one of these shapes is executed by
+   the correspondence (family pickle-slots: the whole store is compared slot by slot), not proved. *)
+Definition C13_pickle_history_statement : Prop :=
+  forall ops h store outs, prun ([], []) ops = ((h, store), outs) -> forall l, In l store ->
+  exists h2 l2, ppickle h l = Ok (h2, l2) /\ pview h2 l2 = pview h l /\ length h <= l2 /\ firstn (length h) h2 = h.
